@@ -229,7 +229,7 @@ Proof.
   - specialize (IH Hr). destruct (zip_pass2 false r) as [k o]. cbn [snd] in *. exact IH.
   - exfalso. apply (H m); [left; reflexivity | exact E].
   - discriminate.
-  - discriminate.
+  - auto.
 Qed.
 
 Lemma zip_complete ms :
